@@ -145,7 +145,7 @@ def run(tier):
             ltypes[k] = ltypes.get(k, 0) + 1
             dtypes[rx["delay"]["type"]] = dtypes.get(rx["delay"]["type"], 0) + 1
         for ru in rec["m"]["rules"]:
-            k = "%s/%s" % (ru["type"], ru["freq"]["kind"])
+            k = "%s/%s/%s" % (ru["type"], "parameter" if ru.get("tpar") else "species", ru["freq"]["kind"])
             rkinds[k] = rkinds.get(k, 0) + 1
     cov = {"states": states, "transitions": trans, "traces_validated_against_impl": ok,
            "samples": [recs[len(recs) // 3]["m"], recs[-1]["m"]], "exhaustive": True, "models": len(recs), "models_per_run": per_run,
